@@ -322,10 +322,6 @@ fn parse_template(ts: TokenStream) -> J {
     if let Ok(e) = syn::parse2::<syn::Expr>(rw.clone()) {
         return J::Obj(vec![("form", s("expr")), ("ast", expr(&e))]);
     }
-    let braced: TokenStream = std::iter::once(TokenTree::Group(Group::new(Delimiter::Brace, rw.clone()))).collect();
-    if let Ok(b) = syn::parse2::<syn::Block>(braced) {
-        return J::Obj(vec![("form", s("block")), ("ast", block(&b))]);
-    }
     if let Ok(f) = syn::parse2::<syn::ItemFn>(rw.clone()) {
         return J::Obj(vec![
             ("form", s("fn")),
@@ -337,6 +333,10 @@ fn parse_template(ts: TokenStream) -> J {
             })),
             ("ast", block(&f.block)),
         ]);
+    }
+    let braced: TokenStream = std::iter::once(TokenTree::Group(Group::new(Delimiter::Brace, rw.clone()))).collect();
+    if let Ok(b) = syn::parse2::<syn::Block>(braced) {
+        return J::Obj(vec![("form", s("block")), ("ast", block(&b))]);
     }
     J::Obj(vec![("form", s("unparsed"))])
 }
